@@ -216,3 +216,21 @@ pub broadcast axiom fn axiom_contains_str_key<V>(m: Map<String, V>, k: &str)
     ensures #[trigger] contains_borrowed_key::<String, V, str>(m, k) <==> m.contains_key(string_of_bytes(k.spec_bytes()));
 pub broadcast axiom fn axiom_maps_str_key_to_value<V>(m: Map<String, V>, k: &str, v: V)
     ensures #[trigger] maps_borrowed_key_to_value::<String, V, str>(m, k, v) <==> m.contains_key(string_of_bytes(k.spec_bytes())) && m[string_of_bytes(k.spec_bytes())] == v;
+
+// ---- HashMap<&[u8], &[u8]> (Authorization header parameters): abstract view over byte strings ----
+pub open spec fn bmap(m: Map<&[u8], &[u8]>) -> IMap<Seq<u8>, Seq<u8>> {
+    IMap::new(
+        |k: Seq<u8>| exists|s: &[u8]| m.contains_key(s) && s@ == k,
+        |k: Seq<u8>| m[choose|s: &[u8]| m.contains_key(s) && s@ == k]@,
+    )
+}
+/// `m.insert(k, v);` - a later insertion of an equal key replaces the value ("last one wins")
+#[verifier::external_body]
+pub fn bytes_map_insert<'a>(m: &mut HashMap<&'a [u8], &'a [u8]>, k: &'a [u8], v: &'a [u8])
+    ensures bmap(final(m)@) == bmap(old(m)@).insert(k@, v@)
+{ unimplemented!() }
+/// `m.get(k)`
+#[verifier::external_body]
+pub fn bytes_map_get<'a, 'b>(m: &'b HashMap<&'a [u8], &'a [u8]>, k: &[u8]) -> (r: Option<&'b &'a [u8]>)
+    ensures r is Some <==> bmap(m@).contains_key(k@), r is Some ==> (**(r->Some_0))@ == bmap(m@)[k@]
+{ unimplemented!() }
